@@ -327,12 +327,19 @@ fn last_path_segment(package_path: &str) -> &str {
     package_path.rsplit('/').next().unwrap_or(package_path)
 }
 
+const GO_KEYWORDS: [&str; 25] = [
+    "break", "case", "chan", "const", "continue", "default", "defer", "else", "fallthrough", "for",
+    "func", "go", "goto", "if", "import", "interface", "map", "package", "range", "return",
+    "select", "struct", "switch", "type", "var",
+];
+
 /// The name a Go package is referred to by in the emitted file. It is the last segment of the
 /// import path made an identifier, or the whole path made an identifier when two imported
-/// packages (or a package and the runtime's own `fmt`) would otherwise share it.
+/// packages (or a package and the runtime's own `fmt`) would otherwise share it. A name that is
+/// a Go keyword, or that another package has taken already (`x/a/b` and `x_a/b`), gets a
+/// numeric suffix; the packages are named in the order of their paths.
 fn go_package_alias(goenv: &GlobalGoEnv, package_path: &str) -> String {
-    let base = sanitize_package_alias(last_path_segment(package_path));
-    let extern_paths = goenv
+    let mut paths: Vec<&str> = goenv
         .genv
         .value_env
         .extern_funcs
@@ -345,15 +352,49 @@ fn go_package_alias(goenv: &GlobalGoEnv, package_path: &str) -> String {
                 .extern_types
                 .values()
                 .filter_map(|t| t.package_path.as_deref()),
-        );
-    let clashes = std::iter::once("fmt").chain(extern_paths).any(|other| {
-        other != package_path && sanitize_package_alias(last_path_segment(other)) == base
-    });
-    if clashes {
-        sanitize_package_alias(package_path)
-    } else {
-        base
+        )
+        .chain(std::iter::once(package_path))
+        .collect();
+    paths.sort();
+    paths.dedup();
+
+    let base_of = |path: &str| sanitize_package_alias(last_path_segment(path));
+    let mut taken: Vec<String> = vec!["fmt".to_string()];
+    let mut chosen = String::new();
+    for path in paths.iter() {
+        let base = base_of(path);
+        let clashes = std::iter::once("fmt")
+            .chain(paths.iter().copied())
+            .any(|other| other != *path && base_of(other) == base);
+        let mut alias = if clashes {
+            sanitize_package_alias(path)
+        } else {
+            base
+        };
+        // the runtime's own import of `fmt` is the package `fmt` itself
+        if *path == "fmt" {
+            if *path == package_path {
+                chosen = alias;
+            }
+            continue;
+        }
+        if GO_KEYWORDS.contains(&alias.as_str()) || taken.contains(&alias) {
+            let stem = alias.clone();
+            let mut n = 2;
+            loop {
+                alias = format!("{}_{}", stem, n);
+                if !taken.contains(&alias) {
+                    break;
+                }
+                n += 1;
+            }
+        }
+        taken.push(alias.clone());
+        if *path == package_path {
+            chosen = alias;
+        }
     }
+    chosen
 }
 
 /// An import spec that binds exactly the name the emitted code uses for the package.
@@ -2483,8 +2524,70 @@ pub fn go_file(
         },
     }));
     // Run a simple DCE pass to drop unused local variables for Go
-    let file = goast::File { toplevels: all };
+    let mut file = goast::File { toplevels: all };
+    for item in file.toplevels.iter_mut() {
+        if let goast::Item::Fn(f) = item {
+            call_resultless_foreign_functions_as_statements(&mut f.body);
+        }
+    }
     (crate::go::dce::eliminate_dead_vars(file), goenv)
+}
+
+/// A foreign function declared `-> unit` is a Go function without a result: it can be called
+/// as a statement only. Where its (unit) value is wanted, call it first and use `struct{}{}`.
+fn call_resultless_foreign_functions_as_statements(block: &mut goast::Block) {
+    fn resultless_foreign_call(e: &goast::Expr) -> bool {
+        matches!(
+            e,
+            goast::Expr::Call { func, ty: goty::GoType::TUnit, .. }
+                if matches!(func.as_ref(), goast::Expr::Var { name, .. } if name.contains('.'))
+        )
+    }
+    let unit = || goast::Expr::Unit {
+        ty: goty::GoType::TUnit,
+    };
+    let mut out = Vec::with_capacity(block.stmts.len());
+    for mut stmt in std::mem::take(&mut block.stmts) {
+        match &mut stmt {
+            goast::Stmt::VarDecl {
+                value: Some(value), ..
+            }
+            | goast::Stmt::Assignment { value, .. }
+                if resultless_foreign_call(value) =>
+            {
+                out.push(goast::Stmt::Expr(std::mem::replace(value, unit())));
+            }
+            goast::Stmt::Return { expr: Some(value) } if resultless_foreign_call(value) => {
+                out.push(goast::Stmt::Expr(std::mem::replace(value, unit())));
+            }
+            goast::Stmt::If { then, else_, .. } => {
+                call_resultless_foreign_functions_as_statements(then);
+                if let Some(else_) = else_ {
+                    call_resultless_foreign_functions_as_statements(else_);
+                }
+            }
+            goast::Stmt::Loop { body } => call_resultless_foreign_functions_as_statements(body),
+            goast::Stmt::SwitchExpr { cases, default, .. } => {
+                for (_, body) in cases.iter_mut() {
+                    call_resultless_foreign_functions_as_statements(body);
+                }
+                if let Some(default) = default {
+                    call_resultless_foreign_functions_as_statements(default);
+                }
+            }
+            goast::Stmt::SwitchType { cases, default, .. } => {
+                for (_, body) in cases.iter_mut() {
+                    call_resultless_foreign_functions_as_statements(body);
+                }
+                if let Some(default) = default {
+                    call_resultless_foreign_functions_as_statements(default);
+                }
+            }
+            _ => {}
+        }
+        out.push(stmt);
+    }
+    block.stmts = out;
 }
 
 fn mentions_type_param(ty: &tast::Ty) -> bool {
